@@ -158,9 +158,14 @@ def run(ctx, progs):
             routers = [(b, c) for b in prog.bodies for c in b.calls() if c.target == parent.id]
             for b, c in routers:
                 facts = b.facts_at(c.pos)
-                ok = any(r[0] == 'cmp' and r[1] == 'Le' and unref(r[2])[:2] == ('param', 3) and is_call(unref(r[3]), "size_of") for r in facts)
+                def word(x):
+                    # the threshold is the machine word (the widest access the ladder can make): size_of::<usize>() — a narrower
+                    # type would send aligned 8-byte transfers to memcpy
+                    x = unref(x)
+                    return is_call(x, "size_of") and len(x) > 3 and tuple(x[3]) in (("usize",), ("u64",), ("isize",), ("i64",))
+                ok = any(r[0] == 'cmp' and r[1] == 'Le' and unref(r[2])[:2] == ('param', 3) and word(r[3]) for r in facts)
                 bulk = [x for x in b.calls() if re.search(r"ptr::copy(_nonoverlapping)?$", canon(x.target or ""))]
-                bulk_ok = all(any(r[0] == 'cmp' and r[1] == 'Gt' and unref(r[2])[:2] == ('param', 3) and is_call(unref(r[3]), "size_of") for r in b.facts_at(x.pos)) for x in bulk) and bool(bulk)
+                bulk_ok = all(any(r[0] == 'cmp' and r[1] == 'Gt' and unref(r[2])[:2] == ('param', 3) and word(r[3]) for r in b.facts_at(x.pos)) for x in bulk) and bool(bulk)
                 ctx.ob("R6.5.routing", b.key, ok and bulk_ok, b.where(c.line),
                        f"total <= size_of::<usize>() (non-strict) routes to the volatile routine [{ok}]; the bulk copy only for total > size_of::<usize>() [{bulk_ok}]")
         # ------------------------------------------------------------ R6.7 containment of the small-object routes
